@@ -5,7 +5,8 @@ name="$1"
 [ -n "$name" ] || { echo "usage: mkscratch.sh <name>"; exit 2; }
 d=/tmp/w/$name
 mkdir -p "$d"
-rsync -a --delete /repo/ "$d/repo/"
+# the lock keeps a seeded change (applied temporarily by tools/seedtest.py) out of the copy
+flock /tmp/repo.lock rsync -a --delete --exclude target/debug/incremental /repo/ "$d/repo/"
 rsync -a --delete --exclude work --exclude .git /verif/ "$d/verif/"
 # cargo's dep-info in the copied target still names /verif/harness files: force the hooked crates to be rebuilt
 # against the scratch harness by touching their roots
